@@ -1656,3 +1656,76 @@ def budget_lines(h):
         return []          # neither served nor refused: the oracle's business
     return ["budget %s/budget %d 0 %s %d" % (h.id, 5 * 1024 * 1024, ".".join(str(x) for x in hw["msg_sizes"]), refused)]
 
+
+WORLD_TYS = ("A", "B", "E", "U", "V", "Transform", "Name", "Visibility")
+
+
+def world_lines(h):
+    """every completed join of every client, whole world at once (`Slice/World.lean`): everything the joiner received from the
+    moment it was last seen disconnected up to `FinishedInitialSync`, in order, through the model's handlers; at the frame of
+    the marker the joiner's uuids, the values of the components it was sent and its parent links are compared"""
+    out = []
+    path_ty = {v: k for k, v in h.types.items()}
+    cfg = peer_cfgs(h)
+    peers = sorted(set(e["peer"] for e in h.events if e["ev"] == "frame" and e["peer"] != 0))
+    for j in peers:
+        reg = set(cfg.get(j, {}).get("registered", h.registered))
+        seg, known, skip, nseg = [], [], False, 0
+        for e in h.events:
+            if e["ev"] == "op" and e.get("peer") == j and e["op"] in ("spawn", "write", "set_parent", "despawn", "add_companions"):
+                skip = True          # the joiner's own application is at work: outside this model
+            if e["ev"] != "frame" or e["peer"] != j or e.get("state") is None:
+                continue
+            st = e["state"]
+            fin = False
+            for m in e["recv"]:
+                if m.get("as_server"):
+                    continue
+                mm = m["msg"]
+                if mm["k"] == "spawn":
+                    seg.append(("s", mm["id"]))
+                elif mm["k"] == "comp":
+                    seg.append(("c", mm["id"], path_ty.get(mm["name"]), mm["data"]))
+                elif mm["k"] == "parented":
+                    seg.append(("p", mm["id"], mm["parent"]))
+                elif mm["k"] == "delete":
+                    skip = True
+                elif mm["k"] == "finsync":
+                    fin = True
+            if fin:
+                nseg += 1
+                if not skip and not st.get("server_transport"):
+                    uidx, vidx = {}, {}
+                    U = lambda u: uidx.setdefault(u, len(uidx) + 1)
+                    V = lambda b: vidx.setdefault(b, len(vidx) + 1)
+                    toks = ["k:%d" % U(u) for u in known]
+                    sent_comp, sent_par = set(), set()
+                    for t in seg:
+                        if t[0] == "s":
+                            toks.append("s:%d" % U(t[1]))
+                        elif t[0] == "c":
+                            if t[2] in WORLD_TYS and t[2] in reg and len(t[3]) < 2000:
+                                toks.append("c:%d:%d:%d" % (U(t[1]), TY_NUM[t[2]], V(t[3])))
+                                sent_comp.add((t[1], t[2]))
+                        else:
+                            toks.append("p:%d:%d" % (U(t[1]), U(t[2])))
+                            sent_par.add(t[1])
+                    ents = st["ents"]
+                    if len(set(x["uuid"] for x in ents)) == len(ents):
+                        toks.append("E:" + ".".join(str(U(x["uuid"])) for x in ents))
+                        for x in ents:
+                            for ty in WORLD_TYS:
+                                if (x["uuid"], ty) in sent_comp:
+                                    v = x["comps"].get(ty)
+                                    toks.append("C:%d:%d:%s" % (U(x["uuid"]), TY_NUM[ty], "-" if v is None else str(vidx.get(v, 9999))))
+                            if (not known or x["uuid"] in sent_par) and x["parent"] != "unsynced":
+                                toks.append("P:%d:%s" % (U(x["uuid"]), "-" if x["parent"] is None else str(U(x["parent"]))))
+                        out.append("world %s/%d.join%d %s" % (h.id, j, nseg, ";".join(toks)))
+                seg, skip = [], False
+                known = [x["uuid"] for x in st["ents"]]
+            elif not st.get("client_connected") and not st.get("client_transport"):
+                # not connected: whatever comes next belongs to the next join; what it holds now is what it returns with
+                seg, skip = [], False
+                known = [x["uuid"] for x in st["ents"]]
+    return out
+
